@@ -1,0 +1,8 @@
+//go:build verif
+
+package container
+
+// VerifState returns the raw state of the queue (capacity, first, next) for the verification harness.
+func (q *Queue[T]) VerifState() (capacity, first, next int) {
+	return cap(q.base), q.first, q.next
+}
